@@ -47,6 +47,9 @@ type Scenario struct {
 	Body func(x *X)
 	// AllowDeadlock / AllowPanic: the harness judges these itself through Post.
 	Post func(x *X, r *vrt.Result) // optional: runs after the execution, outside the scheduler
+	// NoCache disables the state cache (needed when an oracle observes the order of events that do not
+	// conflict in the happens-before sense, e.g. a monitor evaluated after every step).
+	NoCache bool
 }
 
 // Job is a unit of work for a worker process.
@@ -81,6 +84,8 @@ type JobResult struct {
 	Samples   []string       `json:"samples,omitempty"`
 	Extra     json.RawMessage `json:"extra,omitempty"`
 	Replays   int            `json:"replays,omitempty"` // determinism self-checks performed
+	Pruned    int            `json:"pruned,omitempty"`  // subtrees not expanded (no-op excursions of spinning threads)
+	CacheHits int            `json:"cache_hits,omitempty"`
 	MaxDepth  int            `json:"max_depth,omitempty"`
 	Trace     []vrt.OpRec    `json:"trace,omitempty"`
 }
@@ -97,12 +102,13 @@ type explorer struct {
 	deadline time.Time
 	sigSeen  map[string]int
 	recheck  int
+	cache    map[uint64]int8
 }
 
 // ExploreJob runs one "sched" job on a scenario.
 func ExploreJob(sc *Scenario, job *Job) *JobResult {
 	e := &explorer{sc: sc, job: job, bound: job.Bound, res: &JobResult{Outcomes: map[string]int{}},
-		seen: map[uint64]struct{}{}, sigSeen: map[string]int{}}
+		seen: map[uint64]struct{}{}, sigSeen: map[string]int{}, cache: map[uint64]int8{}}
 	if job.Until > 0 {
 		e.deadline = time.UnixMilli(job.Until)
 	}
@@ -138,10 +144,16 @@ func (e *explorer) rec(prefix, prefixN []int, used int, expandOnly bool) {
 		e.res.Err = "nondeterminism not captured (replay diverged): " + r.Diverged + " scenario=" + e.sc.Name
 		return
 	}
-	for _, h := range r.NodeHash[minInt(len(prefix), len(r.NodeHash)):] {
-		e.seen[h] = struct{}{}
+	if e.sc.NoCache {
+		for _, h := range r.NodeHash[minInt(len(prefix), len(r.NodeHash)):] {
+			e.seen[h] = struct{}{}
+		}
+		e.seen[r.TraceHash] = struct{}{}
+	} else {
+		for _, h := range r.FP[minInt(len(prefix), len(r.FP)):] {
+			e.seen[h] = struct{}{}
+		}
 	}
-	e.seen[r.TraceHash] = struct{}{}
 	if r.Horizon {
 		e.res.Horizons++
 	}
@@ -186,7 +198,25 @@ func (e *explorer) rec(prefix, prefixN []int, used int, expandOnly bool) {
 			e.res.Viols = append(e.res.Viols, v)
 		}
 	}
-	for i := len(prefix); i < len(r.Choices); i++ {
+	// the choice that ends this prefix started a read-only excursion of a spinning thread that found
+	// nothing: the state is the one before the choice, whose other alternatives cover everything below
+	limit := len(r.Choices)
+	if len(prefix) > 0 {
+		if noop, park := r.NoopExcursion(len(prefix) - 1); noop && park < limit {
+			e.res.Pruned++
+			limit = park
+		}
+	}
+	for i := len(prefix); i < limit; i++ {
+		if !e.sc.NoCache && !noCacheEnv && i < len(r.FP) {
+			// state cache on happens-before fingerprints: a state already expanded with no more
+			// preemptions used has nothing new below it
+			if u, ok := e.cache[r.FP[i]]; ok && int(u) <= used {
+				e.res.CacheHits++
+				continue
+			}
+			e.cache[r.FP[i]] = int8(used)
+		}
 		cost := used
 		if r.CurFirst[i] {
 			cost++
@@ -212,6 +242,8 @@ func (e *explorer) rec(prefix, prefixN []int, used int, expandOnly bool) {
 		}
 	}
 }
+
+var noCacheEnv = os.Getenv("VERIF_NOCACHE") != ""
 
 func minInt(a, b int) int {
 	if a < b {
@@ -415,6 +447,7 @@ func WorkerLoop(exec func(*Job) *JobResult) {
 // Agg accumulates job results of one check.
 type Agg struct {
 	Execs, Steps, States, Horizons, Replays, MaxDepth int
+	CacheHits, Pruned                                 int
 	Outcomes                                          map[string]int
 	Viols                                             []Violation
 	Errs                                              []string
@@ -441,6 +474,8 @@ func (a *Agg) Add(j Job, r *JobResult) {
 	a.States += r.States
 	a.Horizons += r.Horizons
 	a.Replays += r.Replays
+	a.CacheHits += r.CacheHits
+	a.Pruned += r.Pruned
 	if r.MaxDepth > a.MaxDepth {
 		a.MaxDepth = r.MaxDepth
 	}
